@@ -98,6 +98,7 @@ const BLOCKS: &[(&str, &str, &str, &str, u32)] = &[
     ("front matter that is not a mapping", "", "---\n- a\n- b\n---", "\nstep\n", 0),
     ("front matter with a bad indentation", "", "---\na: 1\n  b: 2\n c\n---", "\nstep\n", 0),
     ("reference with quantity to a components-mode definition with quantity", ">> [mode]: components\n@yy{1%kg}\n>> [mode]: all\nMix ", "@&yy{2%kg}", " well\n", MODES | M),
+    ("reference with quantity to a components-mode definition with quantity that comes after a step definition of the same name", "Use @yy{1%kg}\n\n>> [mode]: components\n@yy{1%kg}\n>> [mode]: all\nMix ", "@&yy{2%kg}", " well\n", MODES | M),
     ("cookware reference with quantity to a components-mode definition with quantity", ">> [mode]: components\n#yy{1}\n>> [mode]: all\nMix ", "#&yy{2}", " well\n", MODES | M),
 ];
 
@@ -307,11 +308,45 @@ pub fn run(tier: Tier) {
                         out.push(v);
                         return out;
                     }
+                    // the metadata-only entry point reads the same `>>` lines: a bad one must be diagnosed there too
+                    // (with a front matter the metadata-only parse does not read the body at all)
+                    if bad.starts_with(">>") && !before.starts_with("---") {
+                        let m = parser.parse_metadata(&src);
+                        let placed = m.report().iter().any(|d| d.severity == Severity::Error && d.labels.first().map(|l| touches(l.0, &range)).unwrap_or(false));
+                        if !placed || m.is_valid() {
+                            out.push(Violation::new(
+                                format!("invalid construct not diagnosed by parse_metadata: {name}"),
+                                format!("{src:?} (extensions {ext:?}): errors {:?}, valid {}", crate::oracles::diag_summary(m.report()), m.is_valid()),
+                                json!({"kind": "block", "construct": name}),
+                            ));
+                            return out;
+                        }
+                    }
                 }
             }
         }
         local.nontrivial += 1;
         out
+    });
+    // well-formed arrangements that are longer than the model layers reach: several definitions of one name
+    // made in different modes, then references with quantities
+    const WELL_FORMED: [&str; 4] = [
+        ">> [mode]: components\n@yy{500%g}\n>> [mode]: all\nAdd @yy{100%g}\n\nthen @&yy{50%g}\n",
+        ">> [mode]: components\n#yy{1}\n>> [mode]: all\nTake #yy{2}\n\nthen #&yy{1}\n",
+        "Add @yy{100%g}\n\nthen @yy{200%g} and @&yy{50%g}\n",
+        ">> [duplicate]: ref\nAdd @yy{100%g}\n\nthen @+yy{200%g} and @yy{50%g}\n",
+    ];
+    sweep("C07 longer well-formed arrangements", WELL_FORMED.len() as u64, |i| json!({"kind": "well-formed", "input": WELL_FORMED[i as usize]}), |idx, local| {
+        let src = WELL_FORMED[idx as usize];
+        local.evaluations += 1;
+        local.nontrivial += 1;
+        let parser = CooklangParser::new(Extensions::all(), Converter::bundled());
+        let r = parser.parse(src);
+        let bad: Vec<String> = r.report().iter().filter(|d| d.severity == Severity::Error).map(|d| d.message.to_string()).collect();
+        if !bad.is_empty() || !r.is_valid() {
+            return vec![Violation::new("error diagnostic for a well-formed recipe", format!("{src:?} (extended): {bad:?}"), json!({"kind": "well-formed", "input": src}))];
+        }
+        vec![]
     });
     // the laws on every token string (cheap, bounded-exhaustive)
     let two = Arc::new(crate::strings::configs(&[Extensions::empty(), Extensions::all()], &[crate::strings::Conv::Bundled]));
